@@ -314,6 +314,9 @@ func checkSites(p *Program, r *Result, sites []Site, prop string) {
 				continue
 			}
 		}
+		if got != want && (strings.HasSuffix(s.Key, ".guards") || impliedGuards[s.Key] != nil) {
+			got = p.predicateGuardsAsPattern(got)
+		}
 		if got != want {
 			// a helper that gained an error result (streamKey returning (key, error) instead of
 			// panicking): its first result is what the table calls its result, and the test of
@@ -587,4 +590,42 @@ func (p *Program) dropAddedErrorResults(got string, guards bool) string {
 		}
 	}
 	return got
+}
+
+// predicateGuardsAsPattern: a guard `f(X)` with f a module predicate decided to accept exactly
+// the canonical positive decimals (canonicalDecimalPredicate) stands for the specified pattern
+// match on X; what the predicate's own body contributes to the facts when it is spliced in (X not
+// empty, first byte not '0', the loop over X run to its end) is implied by it.
+func (p *Program) predicateGuardsAsPattern(got string) string {
+	gs := strings.Split(got, " ; ")
+	x := ""
+	for i, g := range gs {
+		j := strings.IndexByte(g, '(')
+		if j <= 0 || !strings.HasSuffix(g, ")") || strings.ContainsAny(g[:j], " =<>!") {
+			continue
+		}
+		arg := g[j+1 : len(g)-1]
+		for _, fn := range p.Funcs {
+			if fn.Parent() == nil && short(fn.String()) == g[:j] && p.canonicalDecimalPredicate(fn) {
+				x = arg
+				gs[i] = `(*regexp.Regexp).MatchString(regexp.MustCompile("^[1-9][0-9]*$"), ` + arg + `)`
+			}
+		}
+	}
+	if x == "" {
+		return got
+	}
+	implied := map[string]bool{
+		"len(" + x + ") != 0": true, "len(" + x + ") >= 1": true, x + ` != ""`: true,
+		"Elem(" + x + ", 0) != 48": true, "Elem(" + x + ", 0) >= 49": true, "Elem(" + x + ", 0) <= 57": true,
+	}
+	var keep []string
+	for _, g := range gs {
+		if implied[g] || (strings.HasPrefix(g, "(RangeIdx#") && strings.HasSuffix(g, ") >= len("+x+")")) {
+			continue
+		}
+		keep = append(keep, g)
+	}
+	sort.Strings(keep)
+	return strings.Join(keep, " ; ")
 }
